@@ -1,10 +1,12 @@
-(* C45, material-property inputs, generator as found: an input with @PhysicalBounds and no @Bounds loses them *)
-From Coq Require Import String List.
+(* C45, material-property inputs, front-end / generator as found: an input with @PhysicalBounds and no @Bounds loses them *)
+From Coq Require Import String List ZArith Bool Arith Sorted.
 From C45 Require Import C45Model C45Spec C45Proofs.
+Import ListNotations.
+Local Open Scope string_scope.
+Local Open Scope list_scope.
 Theorem C45_material_property_inputs_faithful_refuted : forall vr, mp_phys_needs_bounds vr = true ->
-  exists g d, dkind d = MaterialProperty /\
-              ~ Forall2 (scalar_faithful g (dunit d)) (dinputs d) (t_args (symbols vr g d)).
-Proof. intros vr F. exists nil, w1. split; [reflexivity | exact (d1_refuted vr F)]. Qed.
+  exists g d, dkind d = MaterialProperty /\ ~ Forall2 (scalar_faithful g (dunit d)) (dinputs d) (t_args (symbols vr g d)).
+Proof. exact d1_refuted_ex. Qed.
 Print Assumptions C45_material_property_inputs_faithful_refuted.
 Theorem C45_material_property_inputs_faithful_once_repaired : forall vr g d,
   mp_phys_needs_bounds vr = false -> dkind d = MaterialProperty ->
